@@ -105,11 +105,15 @@ CLAIMS.update({
          "output file of the hidc process are observed on the real command-line tool; absence of internal exceptions on four input "
          "streams x option combinations is validated in-process, every accepted output is assembled by the Lean assembler.",
          "machine-checked proof (Lean 4) of model totality and rendering + totality search in-process and on the CLI", "6 C10"),
- 'C11': ("proof", "Proof, partial. levels_documented: the operator tables regenerated from grammar.py equal the documented table and levels "
-         "are disjoint; the parser model folds left over exactly these tables and is tied to hidc.parser by the parse suite. The print/parse "
-         "round trip is validated exhaustively on all operator pairs (with unary, is, postfix, parentheses mixed in), all triples "
-         "(thorough) and random trees against an independent precedence-climbing parser; the inductive proof is outstanding.",
-         "machine-checked proof (Lean 4) over regenerated precedence tables + exhaustive pair/triple enumeration", "6 C11"),
+ 'C11': ("proof", "Proof. levels_documented: the operator tables regenerated from grammar.py equal the documented table and levels are "
+         "disjoint. documented_grouping (induction over all expression trees, unbounded depth): for every expression built from literals, "
+         "variables, indexing, .length, prefix operators, scalar `is` casts, the five binary levels and any parentheses, printing it with "
+         "exactly the parentheses the documented precedence and left-associativity require and parsing the tokens with the model of "
+         "hidc.parser (ps_expr and the functions below it, explicit fuel) returns exactly that tree and leaves the continuation untouched. "
+         "The model is tied to hidc.parser by the parse suite; the round trip through the real lexer and parser is additionally executed "
+         "on all operator pairs, all triples (thorough) and random trees against an independent precedence-climbing parser (this also "
+         "covers calls, array literals, array casts and ??, which the proved fragment does not).",
+         "machine-checked proof (Lean 4): inductive print/parse round trip over regenerated precedence tables + exhaustive pair/triple enumeration", "6 C11"),
  'C12': ("proof", "Proof, partial. Proved about the lexer model instantiated with the tables and Unicode classes regenerated from the running "
          "Python: integer literals for every digit string, base and underscore placement; keyword/flavour classification of the whole "
          "keyword table; longest symbol match independent of the order among equal-length symbols (the source's set-order dependence); "
